@@ -27,6 +27,12 @@ def public_view(m) -> dict:
         "log_status": {k: v for k, v in m.get_log_status().items()},
         "dynamic_equations": list(m.get_dynamic_equations()),
         "steady_equations": list(m.get_steady_equations()),
+        # the full equation records, every kind (transition, measurement, steady autovalues): kind, dynamic and steady text,
+        # description, attributes (None and the empty set are the same thing after a round trip)
+        "equation_records": [(d.kind.name, d.human, s_.human, d.description or "", sorted(d.attributes or ()))
+                             for d, s_ in zip(m.get_dynamic_equation_objects(), m.get_steady_equation_objects())],
+        "equations_by_kind": {k.name: len(m.get_equations(kind=k)) for k in ir.equations.EquationKind
+                              if k.name in ("TRANSITION_EQUATION", "MEASUREMENT_EQUATION", "STEADY_AUTOVALUES")},
         "flags": {"linear": m.is_linear, "flat": m.is_flat, "deterministic": m.is_deterministic},
         "num_variants": m.num_variants,
         "parameters": {k: [H.bits(x) for x in v] for k, v in m.get_parameters_stds(unpack_singleton=False).items()},
@@ -34,7 +40,8 @@ def public_view(m) -> dict:
     return out
 
 
-FIELDS = ["names", "kinds", "log_status", "dynamic_equations", "steady_equations", "flags", "num_variants", "parameters"]
+FIELDS = ["names", "kinds", "log_status", "dynamic_equations", "steady_equations", "equation_records", "equations_by_kind",
+          "flags", "num_variants", "parameters"]
 
 
 def gen_portable_case(rng) -> dict:
@@ -115,6 +122,26 @@ def portable_case(ctx: Ctx, case: dict):
         if want[f] != got[f]:
             site = {"flags": "portable-flags", "parameters": "portable-values-not-exact"}.get(f, "portable-roundtrip-" + f.replace("_", "-"))
             ctx.fail(site, case, f"{f}: {want[f]!r} became {got[f]!r} after from_portable(to_portable(m))" + (" via JSON" if case.get("json") else ""))
+    # behaviour: the re-created model is the same model -- after the same re-assignment, steady() gives the same levels and the
+    # same parameters (the autovalue parameters are recomputed by `!steady-autovalues` equations) on both
+    if not case.get("json"):
+        try:
+            a, b = m.copy(), m2.copy()
+            for x in (a, b):
+                x.assign(c1=1.5, r1=0.375)
+                with H.quiet():
+                    x.steady()
+            va = {"levels": {k: [H.bits(y) for y in v] for k, v in a.get_steady_levels(unpack_singleton=False).items()},
+                  "parameters": {k: [H.bits(y) for y in v] for k, v in a.get_parameters_stds(unpack_singleton=False).items()}}
+            vb = {"levels": {k: [H.bits(y) for y in v] for k, v in b.get_steady_levels(unpack_singleton=False).items()},
+                  "parameters": {k: [H.bits(y) for y in v] for k, v in b.get_parameters_stds(unpack_singleton=False).items()}}
+            ctx.count("portable_behaviour_compared")
+            if va != vb:
+                diff = [k for part in va for k in va[part] if va[part][k] != vb[part].get(k)]
+                ctx.fail("portable-roundtrip-behaves-differently", case,
+                         f"after assign(c1=1.5, r1=0.375); steady() the original and from_portable(to_portable(m)) differ in {diff[:6]}")
+        except Exception as e:
+            ctx.count("portable_behaviour_skipped:" + type(e).__name__)
     if want["num_variants"] > 1 and any("e" in n for n in want["names"]):
         ctx.nontriv("portable:" + json.dumps(case["spec"], sort_keys=True) + str(want["num_variants"]))
     return m, p
